@@ -345,11 +345,11 @@ def gen_cases(rng, tier):
     add("defect", [0, _url(query=[[[], [0, []]]])])
     # key order: insertion order differs from sorted order
     add("order", [0, _url(query=[[[98], [0, [49]]], [[97], [1, [[50], [51]]]], [[97, 97], [0, [52]]], [[66], [0, []]]])])
-    for _ in range(9000 if thorough else 1300):
+    for _ in range(9000 if thorough else 1100):
         add("random", [0, _rand_url(rng)])
 
     # ---- op 1 / op 6: parse direction on arbitrary strings
-    n1 = 6000 if thorough else 700
+    n1 = 6000 if thorough else 500
     k = 0
     while k < n1:
         s = _rand_urlstring(rng)
@@ -367,7 +367,7 @@ def gen_cases(rng, tier):
         add("regex", [6, _cp(s)])
 
     # ---- spec-side validation against CPython
-    for _ in range(2500 if thorough else 350):
+    for _ in range(2500 if thorough else 250):
         s = _rstr(rng, 8, 0.03)
         add("quote", [2, _cp(rng.choice([" +", " +/", "", " ", "/", "@:"])), s])
         add("quote_plus", [3, s])
@@ -392,7 +392,7 @@ def gen_cases(rng, tier):
             for b in B:
                 for c in B:
                     add("utf8dec", [7, [a, b, c]])
-    for _ in range(6000 if thorough else 700):
+    for _ in range(6000 if thorough else 400):
         add("utf8dec", [7, [rng.choice(B) if rng.random() < 0.8 else rng.randint(0, 255) for _ in range(rng.randint(1, 7))]])
     for c in BOUNDARY + [0x24, 0xA2, 0x939, 0x10348]:  # well-formed encodings decode to themselves
         add("utf8dec", [7, list(chr(c).encode("utf-8")) + [0x41]])
@@ -614,7 +614,7 @@ def match_finding(c, what):
     # the difference must be exactly the one the known defects produce
     if "; parsed=" not in what:
         return None
-    parsed = json.loads(what.split("; parsed=", 1)[1])
+    parsed = json.loads(what.rsplit("; parsed=", 1)[1])
     return ids[0] if _same_url(parsed, exp) else None
 
 
